@@ -17,11 +17,13 @@ ObjOk(p, o, lay) == IF ~o.live THEN p.live = FALSE
                     /\ p.elems = o.elems /\ p.perm = TRUE
                     \* strides() always reports row-major strides of the current shape; the layout functor holds the strides used for addressing
                     /\ p.strides = Strides(o.shape) /\ p.ostrides = ExpStrides(o.shape, lay)
-Expected == [obj |-> [shape |-> obj'.shape, elems |-> obj'.elems], cpy |-> [live |-> cpy'.live, shape |-> cpy'.shape, elems |-> cpy'.elems], ret |-> ret']
+\* the array a cast returned must be the observation of the machine
+ObsOk == obs' = <<>> \/ ("obs" \in DOMAIN Ev /\ Ev.obs.shape = obs'.shape /\ Ev.obs.elems = obs'.elems)
+Expected == [obs |-> obs', obj |-> [shape |-> obj'.shape, elems |-> obj'.elems], cpy |-> [live |-> cpy'.live, shape |-> cpy'.shape, elems |-> cpy'.elems], ret |-> ret']
 
 TInit == Init /\ l = 1 /\ bad = <<>> /\ layout = "C"
 TBegin == /\ l <= Len(TraceLog) /\ Ev.e = "begin"
-          /\ obj' = [live |-> TRUE, shape |-> KindDesc.init, elems |-> Fresh(KindDesc.init, 0)] /\ cpy' = Dead /\ hist' = <<>> /\ ret' = TRUE
+          /\ obj' = [live |-> TRUE, shape |-> KindDesc.init, elems |-> Fresh(KindDesc.init, 0)] /\ cpy' = Dead /\ hist' = <<>> /\ ret' = TRUE /\ obs' = <<>>
           /\ layout' = Ev.layout
           /\ bad' = IF Ev.ret = TRUE /\ ObjOk(Ev.proj.obj, obj', Ev.layout) /\ ObjOk(Ev.proj.cpy, cpy', Ev.layout) THEN bad ELSE Note("initial resize/fill", Expected)
           /\ l' = l + 1
@@ -32,10 +34,12 @@ Act(a) == CASE a.op = "resize" -> Resize(a.shape)
             [] a.op = "assign_back" -> AssignBack
             [] a.op = "write_copy" -> WriteCopy(a.k)
             [] a.op = "drop_copy" -> DropCopy
+            [] a.op = "cast_dtype" -> CastDtype(a.t)
+            [] a.op = "cast_kind" -> CastKind(a.k)
 TStep == /\ l <= Len(TraceLog) /\ Ev.e = "step"
          /\ IF ENABLED Act(Ev.act)
             THEN /\ Act(Ev.act)
-                 /\ bad' = IF Ev.ret = ret' /\ ObjOk(Ev.proj.obj, obj', layout) /\ ObjOk(Ev.proj.cpy, cpy', layout) THEN bad ELSE Note("state after " \o Ev.act.op, Expected)
+                 /\ bad' = IF Ev.ret = ret' /\ ObjOk(Ev.proj.obj, obj', layout) /\ ObjOk(Ev.proj.cpy, cpy', layout) /\ ObsOk THEN bad ELSE Note("state after " \o Ev.act.op, Expected)
             ELSE /\ UNCHANGED vars /\ bad' = Note("action not enabled in the specification", [none |-> TRUE])
          /\ UNCHANGED layout /\ l' = l + 1
 TCrash == /\ l <= Len(TraceLog) /\ Ev.e = "crash"
